@@ -35,6 +35,19 @@ func genPipe(t *rapid.T) PipeCase {
 		if x == closer {
 			reg := func() string { return fmt.Sprintf("r%d", rapid.IntRange(0, (1<<p.R)-1).Draw(t, "reg")) }
 			n := rapid.IntRange(0, 6).Draw(t, "plen")
+			fixedReg := ""
+			if rapid.IntRange(0, 9).Draw(t, "through") < 6 {
+				// read an input and hand it on: the values given to the pipeline reach its outputs
+				n = 0
+				fixedReg = "r0"
+				p.Prog = append(p.Prog, fmt.Sprintf("i2r r0 i%d", rapid.IntRange(0, p.N-1).Draw(t, "pin")))
+				if rapid.Bool().Draw(t, "plus") {
+					p.Prog = append(p.Prog, "inc r0")
+				}
+				if rapid.Bool().Draw(t, "side") {
+					p.Prog = append(p.Prog, fmt.Sprintf("r2o r0 o%d", rapid.IntRange(0, p.M-1).Draw(t, "pout")))
+				}
+			}
 			for i := 0; i < n; i++ {
 				switch rapid.SampledFrom([]string{"i2r", "i2r", "i2r", "r2o", "r2o", "inc", "add", "rset", "cpy", "dec", "nop"}).Draw(t, "op") {
 				case "i2r":
@@ -56,7 +69,10 @@ func genPipe(t *rapid.T) PipeCase {
 				}
 			}
 			closerOut = rapid.IntRange(0, p.M-1).Draw(t, "closerOut")
-			p.Prog = append(p.Prog, fmt.Sprintf("r2owa %s o%d", reg(), closerOut))
+			if fixedReg == "" {
+				fixedReg = reg()
+			}
+			p.Prog = append(p.Prog, fmt.Sprintf("r2owa %s o%d", fixedReg, closerOut))
 		} else {
 			p.Prog = genProg(t, p, m.Rsize)
 		}
